@@ -1,6 +1,9 @@
 package checks
 
-import "bytes"
+import (
+	"bytes"
+	"fmt"
+)
 
 // Spare-capacity monitor: byte-slice arguments are handed to the library as the front part of a larger
 // buffer (len < cap), with a known pattern behind them. A callee that appends to its argument, or writes
@@ -43,4 +46,60 @@ func adjacent(a, b []byte) (sa, sb []byte) {
 	copy(buf, a)
 	copy(buf[len(a):], b)
 	return buf[:len(a)], buf[len(a):]
+}
+
+// Reused-buffer monitor: a caller that verifies many candidates typically reads each one into the SAME
+// buffer. A callee that keeps a reference to an argument (a cache of "already verified" inputs, a parsed
+// object pointing into the input) is invisible while every call gets a fresh slice, and wrong as soon as
+// the buffer is overwritten. reusedBufferPass drives call() with the known-valid string and the
+// candidates alternately, all through one backing array; judge() returns the expected verdict.
+type byteCand struct {
+	b    []byte
+	kind string
+}
+
+func reusedBufferPass(valid []byte, cands []byteCand, call func(sig []byte) (bool, error), expect func(b []byte) bool, report func(kind, what string, b []byte)) (calls int) {
+	buf := make([]byte, 0, 512)
+	load := func(b []byte) []byte {
+		if len(b) > cap(buf) {
+			buf = make([]byte, 0, 2*len(b))
+		}
+		buf = buf[:len(b)]
+		copy(buf, b)
+		return buf
+	}
+	one := func(kind string, b []byte) bool {
+		arg := load(b)
+		ok, err := call(arg)
+		calls++
+		want := expect(b)
+		if err != nil || ok != want {
+			report(kind, fmt.Sprintf("with every candidate passed through one reused buffer: verdict (%v,%v), expected %v", ok, err, want), b)
+			return false
+		}
+		if !bytes.Equal(arg, b) {
+			report(kind, "the reused argument buffer was modified by the call", b)
+			return false
+		}
+		return true
+	}
+	if !one("valid-first", valid) {
+		return
+	}
+	for i, c := range cands {
+		if !one(c.kind, c.b) {
+			return
+		}
+		if i%3 == 2 && !one("valid-again", valid) {
+			return
+		}
+	}
+	// the valid string from a fresh slice, after the buffer last held something else
+	fresh := append([]byte{}, valid...)
+	ok, err := call(fresh)
+	calls++
+	if want := expect(valid); err != nil || ok != want {
+		report("valid-fresh-slice", fmt.Sprintf("the valid string in a fresh slice after the reused-buffer pass: verdict (%v,%v), expected %v", ok, err, want), valid)
+	}
+	return
 }
